@@ -40,8 +40,9 @@ RECORDS = {}      # name -> ordered dict field -> type
 RECORD_META = {}  # name -> dict(rest=type or None, invariant=[...])
 
 
-def record(name, _rest=None, _invariant=(), **fields):
-    """Declare a record (object / heterogeneous dict) type."""
+def record(name, _rest=None, _invariant=(), _aliases=None, **fields):
+    """Declare a record (object / heterogeneous dict) type.  _aliases maps read-only property
+    names to the field they return (e.g. normalization -> _normalization)."""
     flds = {}
     for k, v in fields.items():
         flds[k] = parse_type(v) if isinstance(v, str) else v
@@ -50,7 +51,8 @@ def record(name, _rest=None, _invariant=(), **fields):
     if name in RECORDS and RECORDS[name] != flds:
         raise ValueError(f"record {name} redeclared differently")
     RECORDS[name] = flds
-    RECORD_META[name] = dict(rest=_rest is not None, invariant=list(_invariant))
+    RECORD_META[name] = dict(rest=_rest is not None, invariant=list(_invariant),
+                             aliases=dict(_aliases or {}))
     return TRec(name)
 
 
